@@ -388,6 +388,20 @@ Record case := {
   k_impl : impl_out
 }.
 
+(* short constructors: the generated case files are large, and applications
+   elaborate much faster than record syntax *)
+Definition mkf (fmt : Z) (reps : option Z) (st en : option pexpr) (intv : option Z) : form :=
+  {| f_fmt := fmt; f_reps := reps; f_start := st; f_end := en; f_intv := intv |}.
+Definition aN : ans := Ok None.
+Definition aS (z : Z) : ans := Ok (Some z).
+Definition aE (e : err) : ans := Err e.
+Definition mkq (p : Z) (on valid : bool) (nx pv fs np ns : ans) : qans :=
+  {| q_point := p; q_on := on; q_valid := valid; q_next := nx; q_prev := pv;
+     q_first := fs; q_nprev := np; q_nos := ns |}.
+Definition mkcase (f : form) (items : option (list xitem)) (cs : Z) (ce : option Z)
+  (impl : impl_out) : case :=
+  {| k_form := f; k_items := items; k_cs := cs; k_ce := ce; k_impl := impl |}.
+
 Definition FUEL : nat := Z.to_nat 400.
 
 Definition answer (s : seq) (p : Z) : qans :=
